@@ -98,10 +98,12 @@ def normalise_obs(o, root):
     return o
 
 
-def run_property(ctx, combos, classify_name, max_paths, describe_params, known_from=()):
+def run_property(ctx, combos, classify_name, max_paths, describe_params, known_from=(), own=None):
     """Explore all combos; fill ctx (violations via replay, inconclusive, coverage).  known_from: other properties whose listed
     findings (same root cause at the walker level) are taken as stated exclusions without a KNOWN-FINDING line for this property."""
-    live = common.check_known_witnesses(ctx) if not known_from else set()
+    if own is None:
+        own = not known_from          # (walk sides of E1 properties have already loaded and reported their own findings)
+    live = common.check_known_witnesses(ctx) if own else set()
     for other in known_from:
         live |= common.check_known_witnesses(ctx, other, report=False)
     results = common.pmap(explore_combo, combos, ctx.workers, extra=(max_paths, classify_name), chunk=1)
